@@ -228,6 +228,7 @@ func drawFault(rt *rapid.T, kinds []string, nsteps, ntx int) Fault {
 		f.At = rapid.IntRange(0, nsteps).Draw(rt, "cancel_at")
 	case f.Kind == "cancel_in" || f.Kind == "handler_err":
 		f.At = rapid.IntRange(1, max(1, ntx)).Draw(rt, "call_at")
+	case f.Kind == "err_handshake" || f.Kind == "err_query":
 	default:
 		f.At = rapid.IntRange(1, 2).Draw(rt, "mapper_at")
 		f.Sub = rapid.SampledFrom([]int{-1, 1, -100, 3}).Draw(rt, "col_delta")
@@ -250,6 +251,10 @@ func faultAttempt(ss *session, l *hist.Layout, spec AttemptSpec) (attempt, func(
 	cleanup := func() {}
 	switch {
 	case f.Kind == "none":
+	case f.Kind == "err_handshake":
+		at.plan = &fakemaster.ConnPlan{HandshakeErr: fakemaster.ErrPacket(1040, "08004", "Too many connections")}
+	case f.Kind == "err_query":
+		at.plan = &fakemaster.ConnPlan{QueryErr: fakemaster.ErrPacket(1227, "42000", "Access denied; you need (at least one of) the SUPER privilege(s) for this operation")}
 	case isMasterFault(f.Kind):
 		at.mutate = applyFault(l, f)
 	case f.Kind == "cancel_out":
